@@ -217,4 +217,21 @@ PROPS = {
             "orderby keys are injective; ties are exempt by the property",
         ],
     },
+    "C13": {
+        "level": "exploration",
+        "technique": "property-based testing (rapid): generated JSON/YAML documents, string matrices, integers, bit sets and data values; round trips checked against Go's encoding/json and yaml.v3 as reference parsers and against the value model",
+        "level_text": "Generated-input search: JSON documents (nesting <= 3, null, booleans, integers, large/fractional/exponent floats, strings incl. non-ASCII, quotes, controls, "
+                      "empty keys and containers) rendered by encoding/json or by a noisy printer (whitespace, \\u escapes, 1.0/1e0 number forms); YAML documents of the same model in block "
+                      "and flow style: encode(decode(d)) must parse (with the Go reference parser) to the same content and decode(encode(decode(d))) = decode(d). CSV: decode(encode(m)) = m "
+                      "for rectangular matrices over fields with commas, quotes, newlines, leading/trailing blanks, empties. bits: mask(set(n)) = n for n < 2^53 and set(n) equals the bit "
+                      "positions; set(mask(S)) = S. Wire format: UnmarshalFromJSON(MarshalToJSON(v)) = v for data values of every kind. Any data value given to strict json/yaml encode is "
+                      "either rejected or decodes back to itself.",
+        "level_note": "Trusted: encoding/json, gopkg.in/yaml.v3 as reference parsers (numbers compared as float64), the value model, rapid. Three open findings are recorded (two CSV format limits of Go's encoding/csv, strict encode of arbitrary sets pinned by the repository's tests).",
+        "tests": [{"name": "TestC13", "quick": 2500, "thorough": 30000}],
+        "rule": "non-trivial: document nesting >= 2 or containing null/empty string/empty container; matrix with a field needing quotes; data value of depth >= 2; bits cases always. Distinct = distinct case JSON.",
+        "assumptions": COMMON_ASSUMPTIONS + [
+            "only the default (strict) JSON/YAML codecs are claimed; the non-strict variants are documented as lossy for empty containers and are not asserted",
+            "XML, xlsx, protobuf and archive codecs are outside the property's list and are only exercised for crashes by C10",
+        ],
+    },
 }
